@@ -1,4 +1,5 @@
 import NeatviVerif.Drive.ExSpec
+import NeatviVerif.Drive.ExGlob
 /-!
 # The `ex` stream: model comparison plus the property-specific reference judgement
 -/
@@ -276,6 +277,42 @@ def judge04Step (j : J04) (prev next : Step) (ln : Bytes) : J04 :=
         else setUz j { z with past := a.text :: z.past, future := [] }
       else j) j
 
+/-! ### C15: the global command against the mark-then-visit reference -/
+/-- walk the script; for every line that is a single `g`/`v` command compare the implementation's
+result with the reference run from the model state before it, and a directly following `u` with the
+text before the global -/
+def judge15 (items : List Item) (rest : List String) (eds : List Ex.Ed) (st0 : Step) : List String × Nat :=
+  let n := items.length
+  let rec go : Nat → Nat → Step → Option Bytes → List String → Nat → List String × Nat
+    | 0, _, _, _, errs, v => (errs, v)
+    | f + 1, i, prev, pend, errs, v =>
+      if i ≥ n then (errs, v) else
+      match items[i]?, rest[i]?, eds[i]? with
+      | some (Item.dir _), _, _ => go f (i + 1) prev pend errs v
+      | some (Item.cmd ln _), some r, some ed =>
+        (match parseStep r with
+         | none => (errs, v)
+         | some next =>
+           let (loc, cmd, arg) := splitCmd ln
+           let c := str cmd
+           if isSingle ln && (c == "g" || c == "v" || c == "g!") then
+             match ExGlob.refGlob { ed with out := [], msg := [], input := ed.input.drop 1 } loc cmd arg with
+             | none => go f (i + 1) next none errs v
+             | some (_, edr, visits) =>
+               let want := (edr.lb.map (fun lb => lb.lines.flatten)).getD []
+               let errs := if want == next.text then errs else
+                 errs ++ [s!"clause=visits_each_marked_line_once cause={if ExGlob.markedBeforeResume { ed with out := [], msg := [], input := ed.input.drop 1 } loc cmd arg then "marked_line_before_resume_index" else "other"} cmd={str ln} before={bytesHex prev.text} want={bytesHex want} got={bytesHex next.text}"]
+               go f (i + 1) next (if next.text != prev.text then some prev.text else none) errs (v + visits)
+           else if isSingle ln && c == "u" then
+             let errs := match pend with
+               | some t => if next.text == t then errs else
+                   errs ++ [s!"clause=global_is_one_undo_step after u want={bytesHex t} got={bytesHex next.text}"]
+               | none => errs
+             go f (i + 1) next none errs v
+           else go f (i + 1) next none errs v)
+      | _, _, _ => (errs, v)
+  go (n + 1) 0 st0 none [] 0
+
 /-! ### the stream judge -/
 def judge (mode : Nat) (kv : KV) : Verdict :=
   let base := ExD.judge 0 kv
@@ -319,7 +356,9 @@ def judge (mode : Nat) (kv : KV) : Verdict :=
               let j04' := if mode == 4 then judge04Step j04 prev next ln else j04
               (next, j06', e14 ++ e, jb', lp, j04'))
         (st0, init06, [], initB, [], ({} : J04))
-      let sf := if mode == 6 then j06.errs else if mode == 14 then e14 else if mode == 4 then j04.errs else jb.errs
-      { base with specfails := (sf.take 3).map (fun s => (s.take 500).toString) }
+      let (e15, visits) := if mode == 15 && base.diffs.isEmpty then judge15 items rest mrun.eds st0 else ([], 0)
+      let sf := if mode == 6 then j06.errs else if mode == 14 then e14 else if mode == 4 then j04.errs else if mode == 15 then e15 else jb.errs
+      { base with specfails := (sf.take 3).map (fun s => (s.take 500).toString),
+                  tags := base.tags ++ (if visits ≥ 2 then ["multivisit"] else []) }
 
 end Neatvi.Drive.ExJ
